@@ -230,8 +230,29 @@ def mutate(rng, s):
     return bytes(s)
 
 
+def overlapping_alts(rng, sysi):
+    """an or-list (Default, NPM) of 3-5 intervals over five points, 40% of the bounds with a
+    prerelease tag: the alternatives overlap, nest and touch, which is where canon's merge loop
+    (skip a neighbour whose tags differ, merge a later one, i++) leaves sets that are not
+    canonical: overlapping or redundant spans"""
+    base = sorted(set(tuple(rng.choice([0, 1, 2, 3, 4, 5]) if j == 0 else rng.choice([0, 0, 1, 6]) for j in range(3)) for _ in range(8)))
+    while len(base) < 5:
+        base.append((base[-1][0] + 1, 0, 0))
+    pts = [b"%d.%d.%d" % t for t in base[:5]]
+    pts = [p + b"-" + pre_label(rng) if rng.random() < 0.4 else p for p in pts]
+    alts = []
+    for _ in range(rng.choice([3, 3, 4, 5])):
+        i = rng.randrange(4)
+        j = rng.randrange(i + 1, 5)
+        lo_open = rng.random() < 0.3 and b"-" in pts[i]
+        alts.append(_interval(rng, sysi, pts[i], lo_open, pts[j], rng.random() < 0.5))
+    return (sp(rng) + b"||" + sp(rng)).join(alts)
+
+
 def requirement(rng, sysi, noise=0.0):
-    if sysi in (0, 1, 4):
+    if sysi in (0, 4) and rng.random() < 0.07:
+        s = overlapping_alts(rng, sysi)
+    elif sysi in (0, 1, 4):
         s = collapsing(rng, sysi) if rng.random() < 0.08 else semver_req(rng, sysi)
     elif sysi == 2:
         s = go_req(rng)
